@@ -240,11 +240,16 @@ class _Inliner:
                     holder.body.remove(callee)
 
     # ------------------------------------------------------------------
-    def _fresh_body(self, caller, callee, call, static, is_method):
+    def _fresh_body(self, caller, callee, call, static, is_method, target_name=None):
         binds = _bind(callee, call, drop_self=is_method and not static)
         if binds is None:
             return None
         caller_names = _names(caller) - _names(call)
+        if target_name is not None:
+            # extract-method keeps the name: the local the helper returns is the variable the caller assigns
+            uses = sum(1 for n in ast.walk(caller) if isinstance(n, ast.Name) and n.id == target_name and isinstance(n.ctx, ast.Store))
+            if uses <= 1:
+                caller_names.discard(target_name)
         caller_names |= {a.arg for a in caller.args.args}
         body = [copy.deepcopy(s) for s in callee.body if not (isinstance(s, ast.Expr) and isinstance(s.value, ast.Constant))]
         same = {p for p, v in binds if isinstance(v, ast.Name) and v.id == p}
@@ -277,7 +282,11 @@ class _Inliner:
             elif isinstance(s, ast.AnnAssign) and s.value is not None and isinstance(s.value, ast.Call) and self._is_call_of(s.value, cls, name):
                 call, kind = s.value, "assign"
             if call is not None:
-                fb = self._fresh_body(caller, callee, call, static, is_method)
+                tname = None
+                if kind == "assign":
+                    tg0 = s.targets[0] if isinstance(s, ast.Assign) else s.target
+                    tname = tg0.id if isinstance(tg0, ast.Name) else None
+                fb = self._fresh_body(caller, callee, call, static, is_method, tname)
                 if fb is None:
                     return None
                 pre, body = fb
